@@ -6,6 +6,8 @@ spec -> code : `run_impl` realises a scenario (flatbuffer, recipe with one rule 
 code -> spec : `obs_record` turns (input model, output model) into the abstract observable state on which
                spec/Observed.tla lets TLC evaluate the GraphProps predicates.
 """
+import json
+import zlib
 import os
 import numpy as np
 
@@ -134,6 +136,7 @@ def apply_recipe(q, scn, info, seed=0):
       else:
         cfg, alg = mode_cfg(md)
         q.update_quantization_recipe(".*", opn, cfg, alg)
+    _maybe_serialized(q, scn, seed)
     return
   n = 0
   nsub = len(scn["subs"])
@@ -164,6 +167,14 @@ def apply_recipe(q, scn, info, seed=0):
       n += 1
   if n == 0:
     q.update_quantization_recipe("nomatch_zz", Q.TFLOperationName.FULLY_CONNECTED, None, "no_quantize")
+  _maybe_serialized(q, scn, seed)
+
+
+def _maybe_serialized(q, scn, seed):
+  """One scenario in three reaches the quantizer the way a recipe FILE does: the rules are written out as JSON text and loaded
+  again (enum-valued fields arrive as plain strings)."""
+  if (seed + zlib.crc32(json.dumps(scn["subs"], sort_keys=True).encode())) % 3 == 1:
+    q.load_quantization_recipe(json.loads(json.dumps(q.get_quantization_recipe())))
 
 
 def inject_stats(scn, info):
